@@ -150,9 +150,9 @@ Section Oracles.
 
   Lemma int_from_float_ok f o :
     int_from_float f = COk o -> exists z, f_int_value f = Some z /\ o = PInt z /\ int32 z.
-  Proof.
+  Proof using.
     unfold int_from_float. destruct (f_int_value f) as [z|]; [|discriminate].
-    intro H. apply int_from_int_ok in H. exists z. tauto.
+    intro H. apply int_from_int_ok in H. destruct H as [H1 H2]. exists z. split; [reflexivity|]. split; assumption.
   Qed.
 
   Lemma serialize_int_range v o :
